@@ -26,6 +26,7 @@ package cbor
 // ---- encoder heads (C11: shortest form) -------------------------------------
 
 //@ func cbor.u64Bytes
+//@   params u64
 //@   props C11 C12(sweep) C10(sweep)
 //@   sweep bounds,panic
 //@   pure
@@ -37,6 +38,7 @@ package cbor
 //@   ensures @min8 len(result) == 8 <==> u64 >= 1<<32
 
 //@ func cbor.additionalInfo
+//@   params majorType info
 //@   props C11 C12(sweep) C10(sweep)
 //@   sweep bounds,panic
 //@   pure
@@ -46,6 +48,7 @@ package cbor
 //@   ensures @tail forall i in 1..len(result): result[i] == info[i-1]
 
 //@ func cbor.toU64
+//@   params b
 //@   props C11 C12(sweep) C10(sweep)
 //@   sweep bounds,panic,make
 //@   pure
@@ -59,6 +62,7 @@ package cbor
 // ---- decoder range checks (C11: sound and complete; C12: no panic) ---------
 
 //@ func cbor.overflows
+//@   params u64 kind
 //@   props C11 C12(sweep)
 //@   sweep panic
 //@   pure
@@ -66,6 +70,7 @@ package cbor
 //@   ensures @exact result == (u64 > umax(uint(kind)))
 
 //@ func cbor.overflowsInt
+//@   params i64 kind
 //@   props C11 C12(sweep)
 //@   sweep panic
 //@   pure
@@ -73,6 +78,7 @@ package cbor
 //@   ensures @exact result == (i64 < -1 - int64(nmax(uint(kind))))
 
 //@ func cbor.Decoder.decodePositive
+//@   params d rv additional
 //@   props C11 C12(sweep) C10(sweep)
 //@   sweep bounds,panic
 //@   requires @len8 len(additional) <= 8
@@ -80,6 +86,7 @@ package cbor
 //@   ensures @complete ? (isintkind(uint(kind)) || isuintkind(uint(kind))) && tou64(additional) <= umax(uint(kind)) ==> err == nil
 
 //@ func cbor.Decoder.decodeNegative
+//@   params d rv additional
 //@   props C11 C12(sweep) C10(sweep)
 //@   sweep bounds,panic
 //@   requires @len8 len(additional) <= 8
@@ -87,6 +94,7 @@ package cbor
 //@   ensures @complete ? isintkind(uint(kind)) && tou64(additional) <= nmax(uint(kind)) ==> err == nil
 
 //@ func cbor.decodeLen
+//@   params highThreeBits lowFiveBits additional
 //@   props C12 C11 C10(sweep)
 //@   sweep bounds,panic,nooverflow
 //@   pure
@@ -96,6 +104,7 @@ package cbor
 //@   ensures @mapvalue err == nil && highThreeBits == 5 ==> uint64(result) == 2*ite(lowFiveBits < 24, uint64(lowFiveBits), tou64(additional))
 
 //@ func cbor.Decoder.typeInfo
+//@   params d
 //@   props C12 C11 C10(sweep)
 //@   sweep bounds,panic,make,nilmem
 //@   makelimit 8
@@ -103,14 +112,17 @@ package cbor
 //@   ensures @addlen err == nil ==> len(additional) == addlen(lowFiveBits)
 
 //@ func cbor.Decoder.unwrap
+//@   params d allowedTypes
 //@   props C12 C10(sweep)
 //@   sweep bounds,panic,make,nilmem
 
 //@ func cbor.Decoder.decodeRaw
+//@   params d
 //@   props C12 C10(sweep)
 //@   sweep bounds,panic,make,nilmem
 
 //@ func cbor.Decoder.decodeRawVal
+//@   params d highThreeBits lowFiveBits additional
 //@   props C12 C10(sweep)
 //@   sweep bounds,panic,make,nilmem
 //@   makelimit 100000
@@ -120,6 +132,7 @@ package cbor
 // ---- canonical map key order (C11) ------------------------------------------------
 
 //@ func cbor.BytewiseLexicalSort$1
+//@   params i j
 //@   props C11 C12(sweep)
 //@   sweep bounds,panic
 //@   ghost gk
@@ -135,22 +148,26 @@ package cbor
 // by "makelimit", reflect allocations by callassert on the size argument.
 
 //@ func cbor.Decoder.decodeVal
+//@   params d rv
 //@   props C12 C10(sweep)
 //@   sweep bounds,panic,make,nilmem
 //@   makelimit 100000
 
 //@ func cbor.Decoder.decodeByteSlice
+//@   params d rv additional
 //@   props C12 C10(sweep)
 //@   sweep bounds,panic,make,nilmem
 //@   makelimit 100000
 //@   requires @len8 len(additional) <= 8
 
 //@ func cbor.Decoder.decodeArray
+//@   params d rv additional
 //@   props C12 C10(sweep)
 //@   sweep bounds,panic,make,nilmem
 //@   requires @len8 len(additional) <= 8
 
 //@ func cbor.Decoder.decodeArrayToSlice
+//@   params d rv additional
 //@   props C12 C10(sweep)
 //@   sweep bounds,panic,make,nilmem
 //@   makelimit 100000
@@ -160,26 +177,31 @@ package cbor
 //@   callassert MakeSlice#1: @limit 0 <= len && len < MaxArrayDecodeLength && cap == len
 
 //@ func cbor.Decoder.decodeArrayToStruct
+//@   params d rv additional
 //@   props C12 C10(sweep)
 //@   sweep bounds,make,nilmem
 //@   requires @len8 len(additional) <= 8
 
 //@ func cbor.Decoder.decodeMap
-//@   props C12 C10(sweep)
+//@   params d rv additional
+//@   props C12 C10(sweep,assert)
 //@   sweep bounds,panic,make,nilmem
 //@   requires @len8 len(additional) <= 8
 //@   callassert SetMapIndex#1: @comparable TypeComparable(u(actualKeyType))
 
 //@ func cbor.Decoder.decodeSimple
+//@   params d rv lowFiveBits additional
 //@   props C12 C10(sweep)
 //@   sweep bounds,panic,make,nilmem
 //@   requires @len8 len(additional) <= 8
 
 //@ func cbor.Decoder.Decode
+//@   params d v
 //@   props C12 C10(sweep)
 //@   sweep bounds,panic,make,nilmem
 
 //@ func cbor.Unmarshal
+//@   params data v
 //@   props C12
 //@   sweep bounds,panic,make,nilmem
 //@   modifies v
@@ -188,6 +210,7 @@ package cbor
 //@   ensures! ? err == nil ==> hdr(len(*unwrap(v))) + len(*unwrap(v)) <= len(data)
 
 //@ func cbor.ByteWrap.UnmarshalCBORStream
+//@   params b r o flattened
 //@   props C12 C10(sweep)
 //@   sweep bounds,panic,make,nilmem
 //@   makelimit 100000
@@ -197,6 +220,7 @@ package cbor
 
 // the wrapped item is decoded from a reader confined to the declared length
 //@ func cbor.Bstr.UnmarshalCBORStream
+//@   params b r o flattened
 //@   props C12 C10(sweep)
 //@   sweep bounds,panic,make,nilmem
 //@   makelimit 100000
@@ -204,30 +228,36 @@ package cbor
 //@   callassert Decode#1: @confined Limited(u(arg0.r))
 
 //@ func cbor.X509Certificate.UnmarshalCBORStream
+//@   params c r o flattened
 //@   props C12 C10(sweep)
 //@   sweep bounds,panic,make,nilmem
 //@   makelimit 100000
 
 //@ func cbor.X509CertificateRequest.UnmarshalCBORStream
+//@   params c r o flattened
 //@   props C12 C10(sweep)
 //@   sweep bounds,panic,make,nilmem
 //@   makelimit 100000
 
 //@ func cbor.Timestamp.UnmarshalCBORStream
+//@   params ts r o flattened
 //@   props C12 C10(sweep)
 //@   sweep bounds,panic,make,nilmem
 
 //@ func cbor.Tag.UnmarshalCBORStream
+//@   params t r o flattened
 //@   props C12 C10(sweep)
 //@   sweep bounds,panic,make,nilmem
 
 //@ func cbor.ArrayShift
+//@   params data
 //@   props C20 C12(sweep) C10(sweep)
 //@   sweep bounds,panic,make,nilmem
 
 // ---- canonical map encoding (C11): keys are emitted in the order given by the
 // sort function over the MARSHALED keys; by default that is BytewiseLexicalSort.
 //@ func cbor.Encoder.encodeMap
+//@   params e length keys get
 //@   props C11
 //@   sweep make,nilmem
 //@   requires @length length >= 0
